@@ -317,6 +317,40 @@ fn qsem(args: &[String]) {
     writeln!(out, "{}", json!({"shard_done": shard})).unwrap();
 }
 
+/// c01 --in <ndjson> --out <ndjson> [--shard i --of n] [--seed s] [--variants k]: ColumnBuffer.tla behaviours
+fn c01(args: &[String]) {
+    let input = arg(args, "--in").expect("--in");
+    let output = arg(args, "--out").expect("--out");
+    let shard: usize = arg(args, "--shard").map(|s| s.parse().unwrap()).unwrap_or(0);
+    let of: usize = arg(args, "--of").map(|s| s.parse().unwrap()).unwrap_or(1);
+    let skip: usize = arg(args, "--skip").map(|s| s.parse().unwrap()).unwrap_or(0);
+    let seed: usize = arg(args, "--seed").map(|s| s.parse().unwrap()).unwrap_or(0);
+    let variants: usize = arg(args, "--variants").map(|s| s.parse().unwrap()).unwrap_or(2);
+    let f = std::io::BufReader::new(std::fs::File::open(&input).expect("open input"));
+    let mut out = std::fs::OpenOptions::new().create(true).append(true).open(&output).expect("open output");
+    for (i, line) in f.lines().enumerate() {
+        let line = line.unwrap();
+        if i % of != shard || i < skip {
+            continue;
+        }
+        let b: lvh::c01::Behaviour = serde_json::from_str(&line).expect("behaviour json");
+        writeln!(out, "{}", json!({"idx": i, "begin": true})).unwrap();
+        out.flush().unwrap();
+        for v in 0..variants {
+            let k = i * 7 + v * 13 + seed;
+            let class = k % lvh::c01::NUM_CLASSES;
+            let rep = lvh::c01::REPS[(k / 3) % lvh::c01::REPS.len()];
+            let path = if (k / 5) % 3 == 0 { "rows" } else { "wire" };
+            let layout = (k / 2) % 4;
+            let mut r = lvh::c01::run(&b, class, rep, path, layout);
+            r["idx"] = json!(i);
+            writeln!(out, "{}", r).unwrap();
+        }
+        out.flush().unwrap();
+    }
+    writeln!(out, "{}", json!({"shard_done": shard})).unwrap();
+}
+
 fn main() {
     lvh::util::quiet_panics();
     let args: Vec<String> = std::env::args().collect();
@@ -328,6 +362,7 @@ fn main() {
         Some("sched") => sched(&args[2..]),
         Some("reqseq") => reqseq(&args[2..]),
         Some("qsem") => qsem(&args[2..]),
+        Some("c01") => c01(&args[2..]),
         Some("record-stress") => record_stress(&args[2..]),
         _ => {
             eprintln!("usage: lvh <replay-hist> ...");
